@@ -381,14 +381,16 @@ def _worker(a):
     sb = None
     try:
         pre = random.Random(seed ^ 0x5bd1e995)
+        left_waiting = False
         npre = max(a["npre"], 3) if a.get("directed") == "svc-recase-xreply" else a["npre"]
         if a.get("directed") == "svc-table-full-then-replace":
             npre = 4
         for k in range(npre):
             cid = 900 + k
             how = pre.random()
-            if a.get("directed") == "svc-table-full-then-replace" and k < 2:
-                how = [0.7, 0.9][k]         # both kinds of abandoned client
+            if a.get("directed") == "svc-table-full-then-replace":
+                # both kinds of abandoned client; in every second job of this chain a third one that stays, waiting (the known corner)
+                how = [0.7, 0.9, 0.62 if a.get("variant", 0) % 2 else 0.1, 0.1][k]
             if a.get("directed") == "svc-recase-xreply" and k == 0:
                 how = 0.7
             if how < 0.6:
@@ -398,7 +400,8 @@ def _worker(a):
                 sa.do({"t": "announce", "id": cid, "ip": "10.9.9.9", "port": 999})
                 sa.do({"t": "password", "id": cid, "text": "+x zed pw"})
                 sa.do({"t": "hurry", "id": cid})
-                if a.get("directed") == "svc-recase-xreply" and k == 0:
+                if (a.get("directed") == "svc-recase-xreply" and k == 0) or 0.6 <= how < 0.68:
+                    left_waiting = True
                     continue       # ... and one that is still there, waiting, when the reloads happen
                 if how > 0.8:
                     # ... and whose id is announced again (the previous holder is replaced, not withdrawn)
@@ -454,12 +457,16 @@ def _worker(a):
         res["stats"]["probe_steps_compared"] += 1
         if x != y:
             kinds = sorted(set(kk for _, _, ks in chain[1:] for kk in ks))
+            if left_waiting and a.get("directed") == "svc-table-full-then-replace":
+                # the one case in which the reloaded daemon legitimately has something the fresh one has not: a client that still
+                # waits on the removed service keeps that service's table slot, and the table was full (see known_findings.json)
+                kinds = [kk + "+waiting-client" for kk in kinds]
             area = "services" if (x and y and any(l.startswith("X ") or l.startswith("A xquery") for l in (x[1] + y[1]))) else "rules"
             text = ("after reload %s a probe is treated differently from a daemon started on the new file\n  reloaded: %s\n  fresh:    %s\n"
                     "edits: %s\nold config:\n%s\nnew config:\n%s" % (
                         "x%d" % (len(cfgs) - 1), x, y, [ks for _, _, ks in chain[1:]], cfgs[-2].text("<moddir>"), cfgs[-1].text("<moddir>")))
             res["viol"].append(("C17", "stale-" + area, "stale-%s:%s" % (area, "+".join(kinds) or "none"), text,
-                                {"seed": seed, "nreloads": a["nreloads"], "nprobes": nprobes, "npre": a["npre"], "directed": a.get("directed")}))
+                                {"seed": seed, "nreloads": a["nreloads"], "nprobes": nprobes, "npre": a["npre"], "directed": a.get("directed"), "variant": a.get("variant", 0)}))
             break
     return res
 
@@ -580,7 +587,7 @@ def run(chk, tier, scale=1.0):
     ndir = int((64 if tier == "quick" else 1600) * scale)
     for i in range(ndir):
         rng = random.Random("c17d/%d/%d" % (chk.seed, i))
-        jobs.append(dict(build=b, seed=rng.randrange(1 << 30), nreloads=2, nprobes=14, npre=rng.choice([0, 2, 4]), directed=DIRECTED[i % len(DIRECTED)]))
+        jobs.append(dict(build=b, seed=rng.randrange(1 << 30), nreloads=2, nprobes=14, npre=rng.choice([0, 2, 4]), directed=DIRECTED[i % len(DIRECTED)], variant=i // len(DIRECTED)))
     for r in vcommon.pmap(_worker, jobs):
         chk.add_case(r["hash"], r["nontrivial"])
         if r.get("sample") and r["nontrivial"]:
@@ -611,7 +618,7 @@ def replay(chk, rep):
         for v in r["viol"]:
             print(v[3])
         return 1 if r["viol"] else 0
-    r = _worker(dict(build=b, seed=w["seed"], nreloads=w["nreloads"], nprobes=w["nprobes"], npre=w["npre"], directed=w.get("directed")))
+    r = _worker(dict(build=b, seed=w["seed"], nreloads=w["nreloads"], nprobes=w["nprobes"], npre=w["npre"], directed=w.get("directed"), variant=w.get("variant", 0)))
     for v in r["viol"]:
         print(v[3])
     return 1 if r["viol"] else 0
